@@ -47,6 +47,11 @@ Theorem C10_volume_scale : forall k t (p : list RV3), length p = arity t ->
   elem_vol24_pts ROps t (map (vscale ROps k) p) = (k * k * k * elem_vol24_pts ROps t p)%R.
 Proof. exact elem_vol24_scale. Qed.
 
+(* translation invariance: x |-> x + v leaves every element volume unchanged *)
+Theorem C10_volume_translate : forall v t (p : list RV3), length p = arity t ->
+  elem_vol24_pts ROps t (map (vadd ROps v) p) = elem_vol24_pts ROps t p.
+Proof. exact elem_vol24_translate. Qed.
+
 (* the surface consists of exactly the element faces that belong to one
    element only *)
 Theorem C10_surface_is_boundary :
